@@ -297,6 +297,7 @@ func rulesC19(e *Engine, r *Report) {
 
 	// ---------------------------------------------------------------- R19.2 / R19.3
 	r.Rule("R19.2", "tri-state booleans: every bool field of a struct that propagate() hands to CopyStruct as the target has a marker is<Field>Set that applyAux sets on an explicit false, propagate() consults to restore the original after the copy, and MarshalJSON consults to emit \"false\"")
+	r.Rule("R19.9", "explicit zeros: every numeric or duration option of a struct that propagate() hands to CopyStruct as the target has a marker is<Field>Set (as ErrorBackoff has), because the inheritance copy fills every zero field and cannot tell `0` from `omitted`")
 	r.Rule("R19.3", "propagate restores what it saved: for each marker the value written back after CopyStruct is the same field's value read before the copy, stored to the same element under that field's own marker")
 	prop := needFn(e, r, "R19.2", "sts.(*ClientConf).propagate")
 	if prop != nil {
@@ -325,6 +326,24 @@ func rulesC19(e *Engine, r *Report) {
 			tgt := targets[tn]
 			apply := e.Fn("sts.(*" + tn + ").applyAux")
 			marshal := e.Fn("sts.(*" + tn + ").MarshalJSON")
+			// R19.9: numeric options - an explicit zero is a value, too
+			for i := 0; i < st.NumFields(); i++ {
+				f := st.Field(i)
+				b, isBasic := f.Type().Underlying().(*types.Basic)
+				if !f.Exported() || !isBasic || b.Info()&types.IsNumeric == 0 {
+					continue
+				}
+				marker := "is" + f.Name() + "Set"
+				hasMarker := false
+				for k := 0; k < st.NumFields(); k++ {
+					if st.Field(k).Name() == marker {
+						hasMarker = true
+					}
+				}
+				construct := fmt.Sprintf("sts.%s.%s: explicit zero survives inheritance", tn, f.Name())
+				r.Check(hasMarker, "R19.9", construct, e.Pos(f.Pos()),
+					"a numeric / duration option of a struct that inherits through CopyStruct has no `explicitly set` marker: an explicit 0 in a later source/tag is overridden by the value of the one it inherits from", 1)
+			}
 			for i := 0; i < st.NumFields(); i++ {
 				f := st.Field(i)
 				b, isBasic := f.Type().Underlying().(*types.Basic)
